@@ -173,7 +173,7 @@ def checksig(
     if verify_strict:
         check_public_key_encoding(pair_blob)
     if verify_witness_pubkeytype:
-        if pair_blob[0] not in (2, 3) or len(pair_blob) != 33:
+        if len(pair_blob) != 33 or pair_blob[0] not in (2, 3):
             raise ScriptError("uncompressed key in witness", errno.WITNESS_PUBKEYTYPE)
     if sig_pair is None:
         # empty or unparseable signature: it matches no key, but the key encoding rules above still apply
